@@ -11,6 +11,20 @@ All statements hold for every text and **every** Unicode classifier / grapheme o
 line break terminators") is unreachable. -/
 def C09_total_stmt : Prop := ∀ (cc : CharClass) (text : List Char), ∀ r, tokenize cc text = r →
   (∃ ts, r = .ok ts) ∨ (∃ es, r = .err es)
+theorem C09_total : C09_total_stmt := by
+  intro cc text r hr
+  subst hr
+  unfold tokenize
+  dsimp only
+  rw [scan_panic]
+  split
+  · rename_i h; cases h
+  · split
+    · exact Or.inr ⟨_, rfl⟩
+    · obtain ⟨ts, hts⟩ := filterToks_isSome _
+        (noTwoLB_reverse _ (scan_noTwoLB cc text.length 0 text { toks := [], errs := [] } trivial))
+      rw [hts]
+      exact Or.inl ⟨_, rfl⟩
 
 /-- A failure lists at least one unexpected symbol. -/
 def C09_err_nonempty_stmt : Prop :=
@@ -33,6 +47,13 @@ theorem C09_err_nonempty : C09_err_nonempty_stmt := by
 def C09_ordered_disjoint_stmt : Prop :=
   ∀ (cc : CharClass) (text : List Char) (ts : List Tok), tokenize cc text = .ok ts →
     orderedIn ts 0 (bytesOf text)
+theorem C09_ordered_disjoint : C09_ordered_disjoint_stmt := by
+  intro cc text ts h
+  have hf := tokenize_ok h
+  have hc := scan_chain cc text.length 0 text { toks := [], errs := [] } trivial
+  have ho := chain_orderedIn _ [] _ (0 + bytesOf text) hc (Nat.le_refl _)
+  rw [List.append_nil, Nat.zero_add] at ho
+  exact orderedIn_sublist (filterToks_sublist _ _ hf) ho
 
 /-- A word is a keyword token iff its text *equals* the keyword (whole words only); otherwise it is
 an identifier carrying exactly its text. -/
@@ -40,6 +61,22 @@ def C09_keyword_iff_stmt : Prop :=
   ∀ (w : List Char),
     (∀ k, (k, w) ∈ Generated.keywords → wordKind w = k) ∧
     ((∀ k, (k, w) ∉ Generated.keywords) → wordKind w = .identifier w)
+theorem C09_keyword_iff : C09_keyword_iff_stmt := by
+  intro w
+  constructor
+  · intro k hk
+    simp only [Generated.keywords, List.mem_cons, List.not_mem_nil, or_false, Prod.mk.injEq] at hk
+    rcases hk with ⟨rfl, rfl⟩ | ⟨rfl, rfl⟩ | ⟨rfl, rfl⟩ | ⟨rfl, rfl⟩ | ⟨rfl, rfl⟩ | ⟨rfl, rfl⟩ |
+      ⟨rfl, rfl⟩ | ⟨rfl, rfl⟩ <;> rfl
+  · intro h
+    unfold wordKind
+    have : Generated.keywords.find? (fun p => p.2 == w) = none := by
+      rw [List.find?_eq_none]
+      intro p hp hpw
+      have := eq_of_beq hpw
+      subst this
+      exact h p.1 hp
+    rw [this]
 
 /-- The keyword table (regenerated from `token.rs` / `tokenizer.rs`) is a function: no word is two
 keywords and no keyword kind has two spellings; and every keyword kind is one that carries no
@@ -57,7 +94,7 @@ theorem C09_literal_value : C09_literal_value_stmt := by
   intro ds d
   simp [digitsValue, List.foldl_append]
 
-/-! ## Pending -/
+/-! ## Lexeme slices -/
 
 /-- Each token's range contains exactly the token's own text (T2). -/
 def C09_lexeme_slice_stmt : Prop :=
@@ -69,6 +106,17 @@ def C09_lexeme_slice_stmt : Prop :=
        | .integerLiteral n => digitsValue lex = n ∧ ∀ c ∈ lex, isDigit c = true
        | .terminatorLineBreak => lex = ['\n']
        | _ => True)
+theorem C09_lexeme_slice : C09_lexeme_slice_stmt := by
+  intro cc text ts h t ht
+  have hf := tokenize_ok h
+  have hm : t ∈ (scan cc text.length 0 text { toks := [], errs := [] }).toks :=
+    List.mem_reverse.1 ((filterToks_sublist _ _ hf).subset ht)
+  obtain ⟨pre, lex, post, h1, h2, h3, h4⟩ :=
+    scan_slice cc text text.length 0 text { toks := [], errs := [] } ⟨[], rfl, rfl⟩
+      (by intro t ht; cases ht) t hm
+  refine ⟨pre, lex, post, h1, h2, h3, ?_⟩
+  unfold lexOK at h4
+  split <;> simp_all
 
 /-! ## Non-vacuity -/
 
